@@ -53,6 +53,8 @@ func main() {
 		switch id {
 		case "C13":
 			code, err = stagea.ReplayC13(*replay, rep)
+		case "C12":
+			code, err = stagea.ReplayC12(*replay, rep)
 		default:
 			fmt.Fprintf(os.Stderr, "replay not supported for %s\n", id)
 		}
@@ -67,6 +69,8 @@ func main() {
 		ev, err = stagea.CheckC14(*tier, seed, rep)
 	case "C13":
 		ev, err = stagea.CheckC13(*tier, seed, rep)
+	case "C12":
+		ev, err = stagea.CheckC12(*tier, seed, rep)
 	default:
 		fmt.Fprintf(os.Stderr, "unknown check %q\n", id)
 		os.Exit(2)
